@@ -24,7 +24,7 @@ type ins struct {
 func TestC07(t *testing.T) {
 	rec := mon.Open("C07")
 	defer rec.Finish(t)
-	n := rec.N(6000, 100000)
+	n := rec.N(20000, 100000)
 	for c := 0; c < n; c++ {
 		if rec.Mine(c) {
 			exactCase(rec, c)
